@@ -294,11 +294,12 @@ A_ROUTLOOP = dict(Leaves=["i1", "au0"], UnOps=[], BinOps=[], Stmts=["Return", "N
 A_REFIF = dict(Leaves=["i1", "au0"], UnOps=[], BinOps=["+"], Stmts=["Store", "RefMacros", "LogU"], Ctrl=["VSeq", "Seq2"], NVarsU=1, NVarsB=0, NLocals=0)
 A_IFCHAIN = dict(Leaves=["i1", "au0"], UnOps=[], BinOps=[], Stmts=["Return"], Ctrl=["If2", "If3", "IfMixed", "VSeq"], NVarsU=0, NVarsB=0, NLocals=0)
 # (catalogue entry, alphabet, node budget quick, node budget thorough)
-SIG_PLANS = [("g_n1", A_IFCHAIN, 10, 11), ("g_ur", A_REFIF, 7, 8), ("g_nr", A_REFIF, 7, 8), ("g_n1", A_ROUTLOOP, 7, 8), ("g_u1", A_ROUTLOOP, 6, 8), ("g_u1", A_ROUT, 6, 8), ("g_u2", A_ROUT, 6, 8), ("g_n1", A_ROUT, 6, 8), ("g_u1_n1", A_ROUT_SMALL, 7, 9),
-             ("g_n2_u1", A_ROUT_SMALL, 7, 9), ("g_u1_u2", A_ROUT_SMALL, 7, 8), ("g_nr", A_ROUT, 6, 8), ("g_ur", A_ROUT, 6, 8),
-             ("g_nr_u1", A_ROUT_SMALL, 7, 9), ("g_nrv", A_REF, 9, 10), ("g_nr_nr", A_REF, 9, 10), ("g_nrv_nr", A_REF, 9, 10)]
-SIG_PLANS_THOROUGH_ONLY = [("g_u3", A_ROUT, 0, 7), ("g_n2", A_ROUT, 0, 8), ("g_b1", A_ROUT, 0, 8), ("g_u2_b1", A_ROUT_SMALL, 0, 9),
-                           ("g_u3_n1", A_ROUT_SMALL, 0, 9), ("g_n1_n1_u1", A_ROUT_SMALL, 0, 10), ("g_urv", A_REF, 0, 10)]
+SIG_PLANS = [("g_n1", A_IFCHAIN, 10, 11), ("g_ur", A_REFIF, 7, 8), ("g_nr", A_REFIF, 7, 8), ("g_n1", A_ROUTLOOP, 7, 8), ("g_u1", A_ROUTLOOP, 6, 7),
+             ("g_u1", A_ROUT, 6, 7), ("g_u2", A_ROUT, 6, 7), ("g_n1", A_ROUT, 6, 7), ("g_u1_n1", A_ROUT_SMALL, 7, 8),
+             ("g_n2_u1", A_ROUT_SMALL, 7, 8), ("g_u1_u2", A_ROUT_SMALL, 7, 8), ("g_nr", A_ROUT, 6, 7), ("g_ur", A_ROUT, 6, 7),
+             ("g_nr_u1", A_ROUT_SMALL, 7, 8), ("g_nrv", A_REF, 9, 10), ("g_nr_nr", A_REF, 9, 10), ("g_nrv_nr", A_REF, 9, 10)]
+SIG_PLANS_THOROUGH_ONLY = [("g_u3", A_ROUT, 0, 7), ("g_n2", A_ROUT, 0, 7), ("g_b1", A_ROUT, 0, 7), ("g_u2_b1", A_ROUT_SMALL, 0, 8),
+                           ("g_u3_n1", A_ROUT_SMALL, 0, 8), ("g_n1_n1_u1", A_ROUT_SMALL, 0, 9), ("g_urv", A_REF, 0, 10)]
 
 
 def c02_settings(prog):
@@ -361,7 +362,7 @@ def c03_settings(prog):
 def c03_programs(tier, seed, rnd):
     import outcomes
     q = tier == "quick"
-    plans = [("opt", A_OPT, 7 if q else 8, 1500 if q else 30000), ("optm", A_OPTM, 7 if q else 9, 2500 if q else 40000),
+    plans = [("opt", A_OPT, 7 if q else 8, 1500 if q else 30000), ("optm", A_OPTM, 7 if q else 8, 2500 if q else 40000),
              ("control", A_CONTROL, 6 if q else 7, 600 if q else 10000),
              ("nest", A_NEST, 7 if q else 9, 300 if q else 6000)]
     progs, results = [], []
